@@ -20,6 +20,7 @@ type RunConfig struct {
 	MaxDepth         int
 	MaxPaths         int
 	MapOrderAll      bool
+	MapOrderRepoOnly bool // explore visiting orders only for range statements in the repository's own packages
 	Twin             bool
 	AssertFilter     func(tag string) bool
 	CrossCheckEvery  int // 0: never, 1: every discharged assertion, n: every n-th
@@ -77,6 +78,8 @@ func newWorkerResult() *WorkerResult {
 }
 
 type Interp struct {
+	rangeFixed bool
+	skipExt    *ssa.Function // callReal: the next call of this function runs its SSA, not its external
 	prog          *ssa.Program
 	tb            *TermTab
 	solver        *Solver
@@ -268,6 +271,9 @@ func runHarness(prog *ssa.Program, cfg *RunConfig) *HarnessResult {
 	hr.MapOrder = "insertion"
 	if cfg.MapOrderAll {
 		hr.MapOrder = "all"
+		if cfg.MapOrderRepoOnly {
+			hr.MapOrder = "repo"
+		}
 	}
 	for _, in := range workers {
 		mergeResult(hr.Res, in.res)
